@@ -121,8 +121,14 @@ class FakeSelect(object):
 
 
 def patch_select(connection_module, fake=None):
+    """replaces whatever name of the module holds the select module or select.select (either import style)"""
+    import select as real_select
     fake = fake or FakeSelect()
-    connection_module.select = fake
+    for name, obj in list(vars(connection_module).items()):
+        if obj is real_select or isinstance(obj, FakeSelect):
+            setattr(connection_module, name, fake)
+        elif obj is real_select.select or getattr(obj, '__self__', None).__class__ is FakeSelect:
+            setattr(connection_module, name, fake.select)
     return fake
 
 
@@ -192,6 +198,7 @@ class SimSocket(object):
 
     def send(self, data):
         self.net.switch('send')
+        self.net.sent_since_select = True
         if self.closed:
             raise OSError(9, 'Bad file descriptor')
         if self.server is None:
@@ -256,6 +263,8 @@ class Net(object):
         self.join_hook = None
         self.start_hook = None
         self.loop_events = []
+        self.sent_since_select = False
+        self.io_threads = {}
         self.saved = None
 
     def switch(self, what):
@@ -268,8 +277,13 @@ class Net(object):
         return self.servers[i] if i < len(self.servers) else None
 
     # ---- module stand-ins
+    _installed = None          # the Net whose fakes are in place (class attribute): installing another one replaces it
+
     def install(self):
         from minecraft.networking import connection as C, encryption as E
+        if Net._installed is not None and Net._installed is not self:
+            Net._installed.uninstall()
+        Net._installed = self
         import socket as real_socket, os as real_os
         net = self
         fake_socket = types.SimpleNamespace(
@@ -283,6 +297,10 @@ class Net(object):
 
             @staticmethod
             def select(r, w, x, timeout=None):
+                t = net.io_threads.get(threading.get_ident())
+                if t is not None and not t.sim_in_loop:
+                    t.sim_in_loop = True
+                    net.loop_events.append(('enter', t))
                 net.switch('select')
                 ready = []
                 for s in r:
@@ -297,12 +315,14 @@ class Net(object):
                 if ready:
                     net.idle = 0
                 else:
-                    conn = net.current_connection
-                    if conn is not None and not conn._outgoing_packet_queue:
+                    # idle = nothing readable and nothing written since the previous select (no private attribute of the
+                    # connection is consulted)
+                    if net.current_connection is not None and not net.sent_since_select:
                         net.idle += 1
                         if net.idle >= net.idle_limit:
                             net.idle = 0
                             raise EndOfScript()
+                net.sent_since_select = False
                 return ready, [], []
 
         C_NetworkingThread = C.NetworkingThread
@@ -326,12 +346,19 @@ class Net(object):
                 if self_.is_alive():
                     raise RuntimeError('join on a live thread in a synchronous simulation')
 
-            def _run(self_):
-                net.loop_events.append(('enter', self_))
+            def run(self_):
+                # loop occupancy is observed through the public surface only: a thread is in the I/O loop from its first
+                # select() until run() returns
+                net.io_threads[threading.get_ident()] = self_
+                self_.sim_in_loop = False
                 try:
-                    return C_NetworkingThread._run(self_)
+                    return C_NetworkingThread.run(self_)
                 finally:
-                    net.loop_events.append(('exit', self_))
+                    if self_.sim_in_loop:
+                        net.loop_events.append(('exit', self_))
+                        self_.sim_in_loop = False
+                    if net.io_threads.get(threading.get_ident()) is self_:
+                        del net.io_threads[threading.get_ident()]
 
         fake_timeit = types.SimpleNamespace(default_timer=self.tick)
 
@@ -343,17 +370,48 @@ class Net(object):
                 return bytes(b[:n]).ljust(n, b'\x00')
             return real_os.urandom(n)
         fake_os = types.SimpleNamespace(urandom=fake_urandom)
-        self.saved = (C.socket, C.select, C.NetworkingThread, C.timeit, E.os)
-        C.socket, C.select, C.NetworkingThread, C.timeit, E.os = fake_socket, FakeSel, SimThread, fake_timeit, fake_os
+        # The library reaches the outside world through a handful of names.  They are replaced wherever the module holds them,
+        # whichever import style it uses ("import socket" / "from socket import socket, getaddrinfo", ...), so that a change
+        # of import style in the library is not an alarm.
+        import select as real_select, timeit as real_timeit
+        self.saved = []
+
+        def swap(mod, name, value):
+            self.saved.append((mod, name, getattr(mod, name)))
+            setattr(mod, name, value)
+        for mod in (C, E):
+            for name, obj in list(vars(mod).items()):
+                if obj is real_socket:
+                    swap(mod, name, fake_socket)
+                elif obj is real_socket.socket:
+                    swap(mod, name, fake_socket.socket)
+                elif obj is real_socket.getaddrinfo:
+                    swap(mod, name, fake_socket.getaddrinfo)
+                elif obj is real_select or isinstance(obj, FakeSelect):
+                    swap(mod, name, FakeSel)
+                elif obj is real_select.select or getattr(obj, '__self__', None).__class__ is FakeSelect:
+                    swap(mod, name, FakeSel.select)
+                elif obj is real_timeit:
+                    swap(mod, name, fake_timeit)
+                elif obj is real_timeit.default_timer:
+                    swap(mod, name, fake_timeit.default_timer)
+                elif obj is real_os and mod is E:
+                    swap(mod, name, fake_os)
+                elif obj is real_os.urandom:
+                    swap(mod, name, fake_urandom)
+                elif obj is C_NetworkingThread:
+                    swap(mod, name, SimThread)
         self.C = C
         self.current_connection = None
         return self
 
     def uninstall(self):
-        from minecraft.networking import connection as C, encryption as E
         if self.saved:
-            C.socket, C.select, C.NetworkingThread, C.timeit, E.os = self.saved
+            for mod, name, value in reversed(self.saved):
+                setattr(mod, name, value)
             self.saved = None
+        if Net._installed is self:
+            Net._installed = None
 
     def tick(self):
         self.clock += 0.0371
